@@ -92,6 +92,11 @@ def shard(ctx):
         a_ok, b_ok = lib.ok(rec), lib.ok(twin)
         if a_ok:
             u4(ctx, job, rec)
+        if not a_ok and b_ok and "out of range for type" in str(rec.get("msgs")):
+            # a typed macro parameter rejected its argument (C04): the inlined twin has no such parameter,
+            # so the pair is not comparable
+            ctx.count("not-comparable:macro-parameter-range")
+            continue
         if a_ok != b_ok:
             ctx.violation("macro-twin", {"kind": "success-differs", "macro": a_ok, "inlined": b_ok, "later_asm_block_is_position_dependent": info["multi_block"],
                                          "local_label_passed_to_nested_macro": info["local_label_as_macro_arg"]}, job,
